@@ -331,7 +331,7 @@ def delivery_of(ck, c):
         inp = os.path.join(ck.work, "body_in.jsonl")
         outp = os.path.join(ck.work, "body_out.jsonl")
         open(inp, "w").write(json.dumps({k: c.get(k) for k in ("id", "class", "fmt", "otlp", "zip", "sep", "trail_nl", "esc", "tails", "seg_mode", "seg_seed", "retry", "tz")}) + "\n")
-        rc, _ = ck.go_run("spans", ["--cases", inp, "--out", outp], env_extra={"SPANS_DUMP_BODY": "1"})
+        rc, _ = ck.go_run("spans", ["--cases", inp, "--out", outp], env_extra={"SPANS_DUMP_BODY": "1", "SPANS_CONC": "0"})
         if rc == 0:
             o = json.loads(open(outp).readline())
             if o.get("body_b64") and len(o["body_b64"]) < 600000:
@@ -360,6 +360,76 @@ def nontrivial(c):
     return len(c["spans"]) >= 2 or len(c["tags"]) >= 4
 
 
+INPUT_KEYS = ("id", "class", "fmt", "otlp", "zip", "sep", "trail_nl", "esc", "tails", "seg_mode", "seg_seed", "retry", "tz")
+
+
+def rspan_field_diff(a, b):
+    """first field in which two read-back spans differ (a = read alone, b = read while other requests were in flight)"""
+    if not a or not b:
+        return ""
+    for k in ("tid", "sid", "pid", "start", "end", "name", "svc", "kind", "status", "ev", "more"):
+        if a.get(k) != b.get(k):
+            return "%s: read alone %s, in flight %s" % (k, json.dumps(a.get(k))[:200], json.dumps(b.get(k))[:200])
+    aa, bb = a.get("attrs") or [], b.get("attrs") or []
+    for i in range(max(len(aa), len(bb))):
+        x = aa[i] if i < len(aa) else None
+        y = bb[i] if i < len(bb) else None
+        if x != y:
+            return "attribute %d: read alone %s, in flight %s" % (i, json.dumps(x)[:200], json.dumps(y)[:200])
+    return ""
+
+
+def judge_in_flight(ck, outp, cases, label, replay_mode=False, died=""):
+    """trace requests in flight at the same time (harness concPhase): every answer = the spans its rows give when read alone.
+    cases: the harness' output cases in the order of the run (case_index of the report indexes it)"""
+    path = outp + ".conc"
+    if not os.path.exists(path):
+        ck.obligation("%s: the harness ran the trace requests in flight at the same time" % label, False, "no %s" % path)
+        return None
+    rep = json.load(open(path))["conc"]
+    if rep.get("started") and not rep["ran"]:
+        # the harness process died while the requests were in flight (the plan was written before the first call)
+        used = sorted({i for t in rep["traces"] for i in t["cases"]})
+        pos = {i: k for k, i in enumerate(used)}
+        ck.obligation("%s: the reader process survives overlapping trace requests" % label, False, died[-600:])
+        ck.violation({"property": PID, "kind": "the process died while trace requests over stored Zipkin rows were in flight at the same time "
+                      "(one at a time every one of these rows reads back right)", "output_tail": died[-3000:],
+                      "traces": [{"rows": t["rows"], "requests": [pos[i] for i in t["cases"]]} for t in rep["traces"]],
+                      "trace_set": [{k: cases[i].get(k) for k in INPUT_KEYS} for i in used if i < len(cases)],
+                      "replay": "bin/check C06 --replay <this file> (a race: several runs may be needed)"})
+        return None
+    mm, unst = rep["mismatches"], rep.get("rows_unstable_when_read_alone") or []
+    ok = rep["ran"] and not mm and not unst and rep["answers_wrong"] == 0
+    ck.obligation("%s: overlapping trace requests (OutputQuery calls whose row streams are all in flight, 2 to %d at a time, started one after the other and "
+                  "all at once, GOMAXPROCS %d) each return, span for span, what their stored Zipkin rows give when read one at a time "
+                  "(%d rounds, %d calls, %d spans compared; traces of %s rows made of the stored rows of %d requests)"
+                  % (label, len(rep["traces"]), rep["gomaxprocs"], rep["rounds"], rep["calls"], rep["spans_compared"],
+                     "/".join(str(t["rows"]) for t in rep["traces"]), rep["pool_cases"]), ok,
+                  (rep.get("why") or "") + " %d of %d answers wrong; rows unstable when read alone: %s; first: %s"
+                  % (rep["answers_wrong"], rep["calls"], unst[:3], json.dumps({k: v for k, v in mm[0].items() if k not in ("read_alone", "read_in_flight")})[:600] if mm else ""))
+    ck.coverage["evaluations"] += rep["calls"]
+    if (mm or unst) and rep["ran"]:
+        # the replay: the trace set (input of every request whose rows make the traces, in the order that rebuilds the same traces) + the mismatching span
+        with_span = [m for m in mm if m.get("read_alone")]
+        w = (with_span or mm or [None])[0]
+        used = sorted({i for t in rep["traces"] for i in t["cases"]})
+        pos = {i: k for k, i in enumerate(used)}
+        obj = {"property": PID, "kind": "a stored span is not read back as the span that was pushed when trace requests overlap "
+               "(one at a time every one of these rows reads back right)",
+               "mismatch": w, "difference": rspan_field_diff(w.get("read_alone"), w.get("read_in_flight")) if w else "",
+               "other_mismatches": [{k: v for k, v in m.items() if k not in ("read_alone", "read_in_flight")} for m in mm if m is not w][:8],
+               "answers_wrong": rep["answers_wrong"], "calls": rep["calls"], "gomaxprocs": rep["gomaxprocs"], "rows_unstable_when_read_alone": unst[:5],
+               "traces": [{"rows": t["rows"], "requests": [pos[i] for i in t["cases"]]} for t in rep["traces"]],
+               "trace_set": [{k: cases[i].get(k) for k in INPUT_KEYS} for i in used],
+               "pushed_span": (cases[w["case_index"]].get("zip") or [None] * (w["row"] + 1))[w["row"]] if w and w["case_index"] < len(cases) and w["row"] < len(cases[w["case_index"]].get("zip") or []) else None,
+               "replay": "bin/check C06 --replay <this file> (harness spans --cases <trace_set, one request per line> --out <file>: the harness rebuilds "
+                         "the same traces from the stored rows and reads them in flight; a race: the spans hit differ from run to run)"}
+        if not replay_mode or True:
+            ck.violation(obj)
+    return rep
+
+
+
 def run_spans(ck):
     if not ck.go_build("spans"):
         ck.obligation("harness spans builds against the repository", False, ck.build_out[-1500:])
@@ -369,11 +439,16 @@ def run_spans(ck):
     corpus = os.path.join(HERE, "corpus", PID, "spans.jsonl")
     if os.path.exists(corpus):
         outp = os.path.join(ck.work, "spans_corpus.jsonl")
+        if os.path.exists(outp + ".conc"):
+            os.remove(outp + ".conc")
         rc, out = ck.go_run("spans", ["--cases", corpus, "--out", outp])
         if rc != 0:
             ck.obligation("harness spans ran the corpus", False, out[-1500:])
+            if os.path.exists(outp + ".conc"):
+                judge_in_flight(ck, outp, [json.loads(l) for l in open(outp)], "corpus", died=out)
             return
         cs = [json.loads(l) for l in open(outp)]
+        repc = judge_in_flight(ck, outp, cs, "corpus")
         for i, c in enumerate(cs):
             c["id"] = 1000000 + i
             c["class"] = "corpus:" + c.get("class", "")
@@ -382,14 +457,25 @@ def run_spans(ck):
     # quick tier: of the 17 large fixed requests (ids 7-23) one per class stays (OTLP > 1 MiB, array / NDJSON beyond the read buffers, hundreds of
     # small spans, long line in both framings, two flushes, exactly 1 MiB, 1 MiB + 1, failure after a flush in Zipkin and OTLP); the thorough tier runs all
     env = {"SPANS_DEPTH": "3" if ck.quick() else "4", "SPANS_SKIP": "9,12,13,15,18,21" if ck.quick() else ""}
+    env["SPANS_CONC"] = "24" if ck.quick() else "200"
+    if os.path.exists(outp + ".conc"):
+        os.remove(outp + ".conc")
     rc, out = ck.go_run("spans", ["--seed", ck.seed, "--n", n, "--out", outp], env_extra=env)
     if rc != 0:
         ck.obligation("harness spans ran", False, out[-1500:])
+        if os.path.exists(outp + ".conc"):
+            if judge_in_flight(ck, outp, [json.loads(l) for l in open(outp)], "generated requests", died=out) is None and ck.violations:
+                return
         if "panic" in out or "goroutine" in out:
             ck.violation({"property": PID, "kind": "harness process died while driving the write/read path (panic outside recover)",
                           "output_tail": out[-3000:], "replay": "harness spans --seed %s --n %s" % (ck.seed, n)}, no_input=True)
         return
-    cases += [json.loads(l) for l in open(outp)]
+    gen_cases = [json.loads(l) for l in open(outp)]
+    repg = judge_in_flight(ck, outp, gen_cases, "generated requests")
+    if repg:
+        ck.extra["trace_requests_in_flight"] = {k: repg[k] for k in ("gomaxprocs", "rounds", "calls", "spans_compared", "pool_rows", "pool_cases", "answers_wrong")}
+        ck.extra["trace_requests_in_flight"]["trace_rows"] = [t["rows"] for t in repg["traces"]]
+    cases += gen_cases
     # a panic of the insert service on rows the parser accepted is outside the model's observation alphabet
     panics = [c for c in cases if c.get("panic")]
     ck.obligation("the insert services take every TempoSamples/TempoTag the parsers produce (no panic, no lost row)", not panics,
@@ -709,6 +795,31 @@ def run_spans(ck):
     run_utf8(ck)
 
 
+POOL_DIRS = ["reader/service", "reader/tempo", "reader/controller"]
+
+
+def run_pool_order(ck):
+    """generated obligation (harness poolorder, go/ast; shared with C15): in the packages of the trace read path nothing is used after it was handed back
+    to a pool: no use after an explicit give-back in the same function, and no give-back deferred in a function whose goroutine still uses the value
+    (OutputQuery returns as soon as it has started the goroutine that decodes the rows: seeded change C06-g)"""
+    import vcheck
+    if not ck.go_build("poolorder"):
+        ck.obligation("poolorder builds", False, ck.build_out[-800:])
+        return
+    rc, out = ck.go_run("poolorder", [os.path.join(vcheck.REPO, d) for d in POOL_DIRS])
+    try:
+        res = json.loads(out.strip().splitlines()[-1])
+    except Exception:
+        ck.obligation("poolorder ran", False, out[-800:])
+        return
+    bad = res["violations"]
+    ck.extra["pool_order"] = {"files": res["files"], "explicit_give_back_sites": res["sites"], "deferred": res["deferred"]}
+    ck.obligation("pool order: nothing is used after it was given back to a pool (explicit give-back followed by a use; give-back deferred in a function whose "
+                  "goroutine uses the value) in %s (%d files, %d explicit + %d deferred sites)" % (", ".join(POOL_DIRS), res["files"], res["sites"], res["deferred"]),
+                  not bad and res["files"] > 0,
+                  "; ".join("%s:%d %s: %s" % (os.path.relpath(v["file"], vcheck.REPO), v["line"], v["func"], v["what"]) for v in bad[:5]))
+
+
 def run_zone_census(ck):
     """the modelling assumption behind SpansZone.decode_in_zone: on the span write path the only time.Time is the one onSpan builds with time.Unix
     (modelled), and nothing reads the zone of the process or the clock; a source census over the files of the path (reads $VERIF_REPO)"""
@@ -748,6 +859,23 @@ def run_zone_census(ck):
 def run_replay(ck):
     """bin/check C06 --replay <file>: re-run the request of a replay file through the real code and both comparisons"""
     obj = json.load(open(ck.replay))
+    if obj.get("trace_set"):
+        if not ck.go_build("spans"):
+            ck.obligation("harness spans builds against the repository", False, ck.build_out[-1500:])
+            return
+        inp = os.path.join(ck.work, "replay_in.jsonl")
+        outp = os.path.join(ck.work, "replay_out.jsonl")
+        open(inp, "w").write("".join(json.dumps(c) + "\n" for c in obj["trace_set"]))
+        if os.path.exists(outp + ".conc"):
+            os.remove(outp + ".conc")
+        rc, out = ck.go_run("spans", ["--cases", inp, "--out", outp], env_extra={"SPANS_CONC": "200"})
+        if rc != 0:
+            ck.obligation("harness spans ran the replay", False, out[-1500:])
+            if os.path.exists(outp + ".conc"):
+                judge_in_flight(ck, outp, [json.loads(l) for l in open(outp)], "replay", died=out)
+            return
+        judge_in_flight(ck, outp, [json.loads(l) for l in open(outp)], "replay", replay_mode=True)
+        return
     c = obj.get("case")
     if not c:
         ck.obligation("replay file holds a request", False, "no 'case' in %s" % ck.replay)
@@ -758,7 +886,7 @@ def run_replay(ck):
     inp = os.path.join(ck.work, "replay_in.jsonl")
     outp = os.path.join(ck.work, "replay_out.jsonl")
     open(inp, "w").write(json.dumps({k: c.get(k) for k in ("id", "class", "fmt", "otlp", "zip", "sep", "trail_nl", "esc", "tails", "seg_mode", "seg_seed", "retry", "tz")}) + "\n")
-    rc, out = ck.go_run("spans", ["--cases", inp, "--out", outp])
+    rc, out = ck.go_run("spans", ["--cases", inp, "--out", outp], env_extra={"SPANS_CONC": "0"})
     if rc != 0:
         ck.obligation("harness spans ran the replay", False, out[-1500:])
         return
@@ -822,4 +950,5 @@ def run(ck):
     ]
     ck.coq_props()
     run_zone_census(ck)
+    run_pool_order(ck)
     run_spans(ck)
